@@ -51,9 +51,20 @@ func drawKinds(t *rapid.T, label string) ([]*mocrelay.Nip11Kind, []any, bool, bo
 func drawNIP11(t *rapid.T) (*mocrelay.NIP11, map[string]any, bool) {
 	d := &mocrelay.NIP11{}
 	exp := map[string]any{}
+	// the legal extreme: a configured document with nothing in it
+	if rapid.IntRange(0, 19).Draw(t, "empty_document") == 0 {
+		if rapid.Bool().Draw(t, "empty_slices") {
+			d.SupportedNIPs, d.Tags = []int{}, []string{}
+		}
+		return d, exp, false
+	}
 	str := func(name string, dst *string) {
 		if rapid.Bool().Draw(t, name+"?") {
 			v := gen.UnicodeString(8).Draw(t, name)
+			if rapid.IntRange(0, 11).Draw(t, name+"long?") == 0 {
+				// a description of several kilobytes (the document then exceeds any 4 KiB buffer)
+				v = strings.Repeat(rapid.SampledFrom([]string{"relay ", "é", "x"}).Draw(t, name+"unit"), rapid.IntRange(700, 9000).Draw(t, name+"longn"))
+			}
 			*dst = v
 			if v != "" {
 				exp[name] = v
